@@ -78,25 +78,54 @@ def downgrade_opaque(F, R):
         if tr and b.kind == "AssocFn" and not b.derived:
             (public_traits if b.d.get("vis_pub") else private_traits).add(tr.split("<")[0])
     private_traits -= public_traits
-    if not private_traits:
-        return
+    # iterator types the pinned tree does not have (`struct CellPusher<..>` with a hand-written
+    # `Iterator` impl in place of a closure handed to `map`): what flows through their `next()` is
+    # not something the rules follow, so a body that builds one is opaque in the same sense
+    import json as _json
+    try:
+        pinned = set(_json.load(open(os.path.join(HERE, "pinned_adts.json"))))
+    except (OSError, ValueError):
+        pinned = None
+    custom_iters = set()
+    if pinned is not None:
+        for im in F.impls:
+            if (im.get("trait") or "") in ("std::iter::Iterator", "core::iter::Iterator") and not im.get("derived"):
+                a_ = (im.get("self_ty") or {}).get("adt")
+                if a_ and a_ in F.adts and a_ not in pinned and "::tests::" not in a_:
+                    custom_iters.add(a_)
     opaque = {}
     for b in F.bodies.values():
         if b.in_tests() or b.derived:
             continue
         for (bi, t) in b.calls():
             ce = t.get("callee") or {}
-            if ce.get("local") and ce.get("kind") == "AssocFn" and (ce.get("trait") or "").split("<")[0] in private_traits \
-                    and classify(ce) == "unclassified":
-                opaque.setdefault(b.label(), ce.get("pretty") or ce.get("path"))
+            if private_traits and ce.get("local") and ce.get("kind") == "AssocFn" and \
+                    (ce.get("trait") or "").split("<")[0] in private_traits and classify(ce) == "unclassified":
+                opaque.setdefault(b.label(), "%s, a method of a crate-private trait the analysis could not resolve to an implementation"
+                                  % (ce.get("pretty") or ce.get("path")))
+        newtypes = F.custom_newtype_adts()
+        if newtypes and b.label() not in opaque:
+            hit = next((l_["ty"].get("adt") for l_ in b.locals if l_["ty"].get("adt") in newtypes and not l_["ty"].get("ref")), None)
+            if not hit:
+                txt = _json.dumps(b.blocks)
+                hit = next((nt for nt in newtypes if ('"%s"' % nt) in txt or (nt + "(") in txt or ("::" + nt.split("::")[-1] + "::") in txt), None)
+            if hit:
+                opaque.setdefault(b.label(), "-- it computes with %s, a crate-private integer newtype whose arithmetic and comparisons "
+                                  "go through its own operator impls, which the rules do not read" % hit.split("::")[-1])
+        if custom_iters and b.label() not in opaque:
+            for blk in b.blocks:
+                for st in blk["stmts"]:
+                    rv = st.get("rv") if st["k"] == "assign" else None
+                    if rv and rv.get("k") == "aggregate" and rv.get("agg") == "adt" and rv.get("adt") in custom_iters:
+                        opaque.setdefault(b.label(), "-- it builds %s, a crate-private iterator type with a hand-written next() that "
+                                          "the rules do not follow" % rv["adt"].split("::")[-1])
     if not opaque:
         return
     for key in list(R.violations):
         v = R.violations[key]
         if v["subject"] in opaque:
             del R.violations[key]
-            R.undecided_site(v["rule"], v["subject"], "not judged (%s): the body calls %s, a method of a crate-private trait the "
-                             "analysis could not resolve to an implementation" % (v["construct"][:60], opaque[v["subject"]][:80]))
+            R.undecided_site(v["rule"], v["subject"], "not judged (%s): the body calls %s" % (v["construct"][:60], opaque[v["subject"]][:160]))
             for o in R.obligations:
                 if not o["ok"] and o["rule"] == v["rule"] and o["subject"] == v["subject"] and o["construct"] == v["construct"]:
                     o["ok"] = True
